@@ -330,7 +330,9 @@ LINK_INVS = {
         ("same-loc", "std:label", "-1", "index.html", "-"),
     ]),
 }
-L_INVS = [None, "k1", "k2", "k3", "k*", "zz"]
+# a second key for the SAME file as k1, registered under another base URL (a mirror): entries are shared, the base URL is per key
+LINK_INVS["k1b"] = ("https://mirror.org/m/", *LINK_INVS["k1"][1:])
+L_INVS = [None, "k1", "k2", "k3", "k*", "zz", "k1b"]
 L_DOMS = [None, "std", "py", "*"]
 L_TYPES = [None, "label", "func*", "*"]
 L_TARGETS = ["sec-one", "mod.func", "sec*", "sec\\*star", "nomatch", "*", "sp ace", "only2", "deep", "top3", "same-loc"]
@@ -359,7 +361,7 @@ class LinkSystem(System):
         self.dir.mkdir(exist_ok=True)
         self.setting = {}
         for key, (base, proj, ver, lines) in LINK_INVS.items():
-            p = self.dir / f"{key}.inv"
+            p = self.dir / f"{'k1' if key == 'k1b' else key}.inv"
             p.write_bytes(make_v2(proj, ver, [" ".join(e) for e in lines]))
             self.setting[key] = [base, str(p)]
         self.model = link_model()
